@@ -35,6 +35,9 @@ type FakeConn struct {
 	FailWriteAt      int // the k-th Write (1-based) and every later one fail; 0: never
 	nWrites          int
 	Observe          func(b []byte) // called with the caller's slice before it is copied
+	// Unreadable (guard mode): b lies in freed, inaccessible memory (Observe has reported it): the
+	// write is recorded as zeros of the same length instead of being copied.
+	Unreadable func(b []byte) bool
 }
 
 // ErrInjected is the error of an injected write failure.
@@ -52,6 +55,10 @@ func (f *FakeConn) Write(b []byte) (int, error) {
 	}
 	if f.Observe != nil {
 		f.Observe(b)
+	}
+	if f.Unreadable != nil && f.Unreadable(b) {
+		f.Writes = append(f.Writes, make([]byte, len(b)))
+		return len(b), nil
 	}
 	f.Writes = append(f.Writes, append([]byte(nil), b...))
 	return len(b), nil
@@ -89,13 +96,25 @@ func (l *capLogger) Info(string, ...interface{})  {}
 func (l *capLogger) Warn(string, ...interface{})  {}
 func (l *capLogger) Error(format string, v ...interface{}) {
 	l.mu.Lock()
-	s := fmt.Sprintf(format, v...)
+	full := fmt.Sprintf(format, v...)
+	s := full
 	if len(s) > 1500 {
 		s = s[:1500]
 	}
 	l.errs = append(l.errs, s)
 	l.mu.Unlock()
+	// guard mode (Cfg.Guard): a recovered panic that is a memory fault carries the address
+	if e := guardEP; e != nil && e.T.Guarded() {
+		for _, x := range v {
+			if addr, ok := track.FaultAddr(x); ok {
+				e.T.Fault(addr, track.FaultSite(full))
+			}
+		}
+	}
 }
+
+// guardEP is the endpoint whose tracker runs in guard mode (one at a time, see track.EnableGuard).
+var guardEP *Endpoint
 
 var theLogger = &capLogger{}
 var logOnce sync.Once
@@ -195,6 +214,7 @@ type Cfg struct {
 	Observe           bool `json:"observe,omitempty"` // call track.Use at conn.Write and in the callbacks (C11; linear in the number of freed buffers)
 	FailWriteAt       int  `json:"fail_write_at,omitempty"`
 	Move              bool `json:"move,omitempty"`           // the allocator moves a buffer that has to grow (like mempool.NewAligned)
+	Guard             bool `json:"guard,omitempty"`          // freed buffers become inaccessible memory instead of being poisoned (track guard mode); the caller sets debug.SetPanicOnFault on its goroutine, recovers around calls outside Parse and calls Endpoint.Release when the case is over
 	PanicAtEvent      int  `json:"panic_at_event,omitempty"` // the k-th callback (1-based) panics
 	ExecuteFalse      bool `json:"execute_false,omitempty"`  // Conn.Execute refuses every job (closed nbio.Conn)
 }
@@ -254,6 +274,11 @@ func NewEndpoint(cfg Cfg) *Endpoint {
 	e := &Endpoint{Cfg: cfg, Fake: &FakeConn{FailWriteAt: cfg.FailWriteAt}}
 	e.T = track.New(track.Policy(cfg.Policy))
 	e.T.MoveOnGrow = cfg.Move
+	guardEP = nil
+	if cfg.Guard && e.T.EnableGuard() {
+		guardEP = e
+		e.Fake.Unreadable = e.T.InFreed
+	}
 	var alloc mempool.Allocator = e.T
 	if cfg.Spy {
 		e.Spy = &Spy{A: e.T}
@@ -287,14 +312,14 @@ func NewEndpoint(cfg Cfg) *Endpoint {
 	if !cfg.NoOnMessage {
 		u.OnMessage(func(c *websocket.Conn, mt websocket.MessageType, data []byte) {
 			use(data, "OnMessage")
-			e.Events = append(e.Events, Event{Kind: 'M', Type: byte(mt), Payload: append([]byte{}, data...)})
+			e.Events = append(e.Events, Event{Kind: 'M', Type: byte(mt), Payload: e.readable(data)})
 			cb()
 		})
 	}
 	if cfg.OnDataFrame {
 		u.OnDataFrame(func(c *websocket.Conn, mt websocket.MessageType, fin bool, data []byte) {
 			use(data, "OnDataFrame")
-			e.Events = append(e.Events, Event{Kind: 'F', Type: byte(mt), Fin: fin, Payload: append([]byte{}, data...)})
+			e.Events = append(e.Events, Event{Kind: 'F', Type: byte(mt), Fin: fin, Payload: e.readable(data)})
 			cb()
 		})
 	}
@@ -345,6 +370,24 @@ func NewEndpoint(cfg Cfg) *Endpoint {
 		return true
 	}
 	return e
+}
+
+// readable returns a copy of what a callback was handed - zeros of the same length in guard mode
+// when it lies in freed, inaccessible memory (the observation point has reported it).
+func (e *Endpoint) readable(data []byte) []byte {
+	if e.T.Guarded() && e.T.InFreed(data) {
+		return make([]byte, len(data))
+	}
+	return append([]byte{}, data...)
+}
+
+// Release ends a guard-mode case: the tracker's memory becomes inaccessible for good. Nothing of
+// the endpoint may be used afterwards except the recorded events, writes and the tracker's counts.
+func (e *Endpoint) Release() {
+	e.T.Release()
+	if guardEP == e {
+		guardEP = nil
+	}
 }
 
 // Clean does what the engine does when the connection is gone.
